@@ -276,6 +276,7 @@ pub fn install_panic_hook() {
     ONCE.call_once(|| {
         std::panic::set_hook(Box::new(|info| {
             let loc = info.location().map(|l| format!("{}:{}", l.file(), l.line())).unwrap_or_default();
+            eprintln!("panic: {} ({})", info, std::thread::current().name().unwrap_or("?"));
             if let Ok(mut g) = PANIC_LOC.lock() {
                 *g = loc;
             }
